@@ -397,8 +397,49 @@ def run_maps(prop, spec, seed, tier, known, ev):
         q.update({"maps": True, "text_ast": True})
         q['cfg'] = dict(q['cfg'] or {}, chainSourceMap=False)
     results = vlib.pipeline(reqs, mode='maps')
-    return _collect(prop, spec, results, known, ev, 'modified files whose embedded map was decoded with the verified decoder: layout stress programs '
-                    '(multi-line operands, CRLF, non-ASCII, comments) and grammar-generated programs; non-trivial = a map with at least one token was checked')
+    vio_big = periodic_large_file(r.fork(), tier)
+    out = _collect(prop, spec, results, known, ev, 'modified files whose embedded map was decoded with the verified decoder: layout stress programs '
+                    '(multi-line operands, CRLF, non-ASCII, comments) and grammar-generated programs; non-trivial = a map with at least one token was checked; '
+                    'plus one file of more than a megabyte made of one small function repeated, whose mappings must be those of the small function')
+    ev['coverage']['large_file'] = vio_big[1]
+    return (out[0] + vio_big[0],) + tuple(out[1:])
+
+
+def periodic_large_file(g, tier):
+    """a file of > 1 MiB built from the same 4-line function repeated (names of equal width): every copy must be mapped
+    exactly like the function is mapped in a two-function file (position-for-position, shifted by whole lines)"""
+    def fn(k):
+        return "function fn%06d(a%06d, b%06d){\n  return a%06d +\n    b%06d.trim();\n}" % (k, k, k, k, k)
+    nf = 14500 if tier == 'quick' else 40000
+    cfg = dict(vlib.DEFAULT_CFG, chainSourceMap=False)
+    small = vlib.run_harness([{"id": "small", "cfg": cfg, "src": fn(0) + "\n" + fn(1), "file": "big.js", "tags": [], "maps": True, "ast": False}])[0]
+    big_src = "\n".join(fn(k) for k in range(nf))
+    big = vlib.run_harness([{"id": "big", "cfg": cfg, "src": big_src, "file": "big.js", "tags": [], "maps": True, "ast": False}])[0]
+    info = {'bytes': len(big_src), 'functions': nf, 'status': big.get('status')}
+    try:
+        st = small['map_tokens']['tokens']
+        bt = big['map_tokens']['tokens']
+    except Exception:
+        return ([('C09:large-file-produced-no-map', {'src': '%d copies of a 4-line function (%d bytes)' % (nf, len(big_src)), 'file': 'big.js'}, {}, str(big.get('outcome')))], info)
+    info['tokens'] = len(bt)
+    def by_fn(tokens):
+        d = {}
+        for t in tokens:
+            d.setdefault(t[2] // 4, []).append(t)
+        return d
+    sd, bd = by_fn(st), by_fn(bt)
+    g0 = min(t[0] for t in sd[0]); g1 = min(t[0] for t in sd[1]); per = g1 - g0
+    ref = sorted((t[0] - g0, t[1], t[2], t[3]) for t in sd[0])
+    b0 = min(t[0] for t in bd[0])
+    for k in sorted(bd):
+        rel = sorted((t[0] - b0 - k * per, t[1], t[2] - 4 * k, t[3]) for t in bd[k])
+        if rel != ref:
+            return ([('C09:large-file-mappings-differ-from-the-same-code-in-a-small-file',
+                      {'src': '%d copies of "%s" with numbered names (%d bytes)' % (nf, fn(0).replace('\n', ' '), len(big_src)), 'file': 'big.js', 'copy': k}, {},
+                      'copy %d: %d mappings %s... expected %d mappings %s...' % (k, len(rel), rel[:4], len(ref), ref[:4]))], info)
+    if len(bd) != nf:
+        return ([('C09:large-file-functions-without-mappings', {'src': 'large periodic file', 'file': 'big.js'}, {}, '%d of %d functions mapped' % (len(bd), nf))], info)
+    return ([], info)
 
 
 def gen_orig_map(g, src):
@@ -407,6 +448,9 @@ def gen_orig_map(g, src):
     toks = []
     nsrc = 1 + g.below(3)
     sources = ["orig%d.ts" % k for k in range(nsrc)]
+    if g.chance(1, 4):
+        # names outside ASCII (the map JSON carries them as UTF-8)
+        sources = [g.choice(["m\u00f3dulo%d.ts", "\u65e5\u672c%d.ts", "dir \u00e9/x%d.ts", "\U0001F600%d.ts"]) % k for k in range(nsrc)]
     names = ["n%d" % k for k in range(g.below(4))]
     for ln, text in enumerate(lines):
         if g.chance(1, 5):
@@ -457,9 +501,15 @@ def run_chain(prop, spec, seed, tier, known, ev):
         else:
             ref = "idx.map"
             files[(parent + "/" if parent else "") + "idx.map"] = gen.MAP_INDEX
-        style = g.below(3)
+        style = g.below(5)
         if ref is not None:
-            if style == 0:
+            if style == 3:
+                # blanks after the reference
+                src = src + "\n//# sourceMappingURL=" + ref + g.choice([" ", "\t", "  \t ", " \r"])
+            elif style == 4:
+                # the block form of the comment
+                src = src + "\n/*# sourceMappingURL=" + ref + " */"
+            elif style == 0:
                 src = src + "\n//# sourceMappingURL=" + ref
             elif style == 1:
                 src = src + "\n//# sourceMappingURL=" + ref + "\n"
